@@ -75,6 +75,38 @@ def R(outcome, nontrivial=True, viols=(), n=1, nt=None, extra=None):
             "v": list(viols), "x": extra}
 
 
+def isolated(fn, *args):
+    """Run fn(*args) in a forked child so that module-level / class-level state of the package starts pristine
+    (as imported) for every history; the result comes back pickled over a pipe."""
+    import pickle
+    r, w = os.pipe()
+    pid = os.fork()
+    if pid == 0:
+        code = 0
+        try:
+            os.close(r)
+            try:
+                payload = pickle.dumps(("ok", fn(*args)))
+            except BaseException:
+                payload = pickle.dumps(("err", traceback.format_exc()))
+            with os.fdopen(w, "wb") as f:
+                f.write(payload)
+        except BaseException:
+            code = 3
+        finally:
+            os._exit(code)
+    os.close(w)
+    with os.fdopen(r, "rb") as f:
+        data = f.read()
+    os.waitpid(pid, 0)
+    if not data:
+        raise HarnessError("isolated child died without a result")
+    st, val = pickle.loads(data)
+    if st == "err":
+        raise HarnessError("isolated child failed:\n" + val)
+    return val
+
+
 # --------------------------------------------------------------------------------------- pool
 _EXEC = {}
 
@@ -127,7 +159,9 @@ class Ctx:
 
     def pool(self):
         if self._pool is None:
-            self._pool = multiprocessing.get_context("fork").Pool(NPROC)
+            # maxtasksperchild=1: every chunk runs in a freshly forked worker, so the cases of a chunk that precede a
+            # violating case are the complete in-process history since import (used to make replays self-contained)
+            self._pool = multiprocessing.get_context("fork").Pool(NPROC, maxtasksperchild=1)
         return self._pool
 
     def close(self):
@@ -156,7 +190,8 @@ class Ctx:
             chunks = [(name, indexed[i:i + cs]) for i in range(0, len(indexed), cs)]
             results = self.pool().imap_unordered(_run_chunk, chunks)
         else:
-            results = (_run_chunk((name, [ic])) for ic in indexed)
+            cs = len(indexed) or 1
+            results = [isolated(_run_chunk, (name, indexed))] if indexed else []
         for r in results:
             if "error" in r:
                 self.close()
@@ -178,6 +213,8 @@ class Ctx:
             L["outcomes"][k] = L["outcomes"].get(k, 0) + c
         for v in agg["v"]:
             v["layer"] = layer
+            i = v.get("idx", 0)
+            v["prefix"] = uniq[(i // cs) * cs:i]
         self.violations.extend(agg["v"])
         if uniq:
             step = max(1, len(uniq) // nsamples)
@@ -218,6 +255,18 @@ def load_known():
     return finding, fixed
 
 
+def run_replay(module, case):
+    """Execute one stored case (or a stored sequence of cases) through the check's replay executor in a forked child."""
+    def go():
+        if isinstance(case, dict) and "__seq__" in case:
+            out = []
+            for c in case["__seq__"]:
+                out = module.replay(c)
+            return out
+        return module.replay(case)
+    return isolated(go)
+
+
 # --------------------------------------------------------------------------------------- finishing
 def finish(ctx, module, coverage_extra):
     """Group violations by key, replay each reported one twice, write replay + evidence, exit code."""
@@ -235,13 +284,19 @@ def finish(ctx, module, coverage_extra):
             lines.append("KNOWN-FINDING: property=%s key=%s %s (%d cases this run; e.g. %s)" % (
                 ctx.prop, key, known[(ctx.prop, key)], len(vs), json.dumps(first.get("case"), default=_jd)[:200]))
             continue
-        # determinism: the reported case must reproduce the same key twice through the replay executor
+        # determinism: the reported case must reproduce the same key twice through the replay executor, each time in a
+        # pristine forked child. If it only reproduces after the cases that preceded it in its worker (state carried
+        # between calls inside one process), the replay artefact becomes that whole sequence.
         if hasattr(module, "replay") and first.get("case") is not None:
-            for _ in range(2):
-                keys = [x["key"] for x in module.replay(first["case"])]
-                if key not in keys:
-                    raise HarnessError("violation %s did not reproduce on replay of %r (got %r)" % (
-                        key, first["case"], keys))
+            def reproduces(c):
+                return all(key in [x["key"] for x in run_replay(module, c)] for _ in range(2))
+            if not reproduces(first["case"]):
+                seq = {"__seq__": list(first.get("prefix") or []) + [first["case"]]}
+                if first.get("prefix") and reproduces(seq):
+                    first["case"] = seq
+                    first["msg"] += " [only after the %d preceding cases of the same process: state is carried between calls]" % len(seq["__seq__"][:-1])
+                else:
+                    raise HarnessError("violation %s did not reproduce on replay of %r" % (key, first["case"]))
         rec = {"property": ctx.prop, "key": key, "tier": ctx.tier, "seed": ctx.seed,
                "count_this_run": len(vs), "layer": first.get("layer"), "msg": first["msg"],
                "case": first.get("case"), "observed": first.get("observed"), "expected": first.get("expected"),
